@@ -3,6 +3,8 @@ From Coq Require Import String.
 From Coq Require Import List Arith NArith Bool.
 From FileIO Require Import Pwrite FdTable Raw TiffFail SideBySide Hal.
 Import ListNotations.
+Local Open Scope nat_scope.
+Local Open Scope list_scope.
 
 (* ---- C14: acquisitions (set / start / append* / stop cycles) on one raw device ---- *)
 Record cycle := mkCycle {
@@ -18,6 +20,18 @@ Definition history (cs : list cycle) : list op := flat_map cycle_ops cs.
 
 (* every HAL call of the history answered Device_Ok *)
 Definition all_ok (rs : list (bool * status * dstate)) : Prop := Forall (fun r => snd (fst r) = Ok) rs.
+
+(* the write script [ws], from its index [k] on, serves the packets [pkts] one after the other: each packet meets some
+   pattern [pat] of counts -- no error, all bytes delivered, fewer than three zero-length results, not ENDING in a
+   zero-length result (the loop stops once the buffer is exhausted, so a trailing zero would belong to the next
+   packet) -- and the next packet starts where this one's calls end *)
+Fixpoint admissible (ws : nat -> wresp) (k : nat) (pkts : list (list byte)) : Prop :=
+  match pkts with
+  | [] => True
+  | b :: rest =>
+    exists pat, delivers ws k (length b) pat /\ list_sum pat = length b /\ zeros pat < 3 /\ last pat 1 <> 0 /\
+                admissible ws (k + length pat) rest
+  end.
 
 (* ---- C16: descriptors over the system-call log ---- *)
 (* at the end of log [t] the device holds descriptor number [fd]: it has opened it once more often than closed it *)
